@@ -432,7 +432,7 @@ def write_evidence(prop, tier, seed, spec, thms, bad_thms, lean_ok, lines, impl,
         ops_hist[op] = ops_hist.get(op, 0) + 1
         k = " ".join(a.split(" ")[:2]) if not a.startswith("ok") else "ok"
         kinds[op + ":" + k] = kinds.get(op + ":" + k, 0) + 1
-        if a.startswith("ok"):
+        if a.startswith("ok") or a == "safe":
             nontrivial.add(l)
     step = max(1, len(lines) // 12)
     samples = [{"op": lines[i], "impl": impl[i], "model": model[i]} for i in range(0, len(lines), step)][:14]
